@@ -42,6 +42,17 @@ import (
 
 var leaked int
 
+var (
+	oracleMu   sync.Mutex
+	oracleHist = map[string]int{}
+)
+
+func ocount(k string) {
+	oracleMu.Lock()
+	oracleHist[k]++
+	oracleMu.Unlock()
+}
+
 // ---------------------------------------------------------------- keys
 
 const nKeys = 10
@@ -59,7 +70,9 @@ func init() {
 	}
 }
 
-func msTime(ms int64) time.Time { return time.Unix(baseSec, 0).Add(time.Duration(ms) * time.Millisecond).UTC() }
+func msTime(ms int64) time.Time {
+	return time.Unix(baseSec, 0).Add(time.Duration(ms) * time.Millisecond).UTC()
+}
 
 // ---------------------------------------------------------------- op parsing
 
@@ -151,16 +164,16 @@ func (v *vsDesc) tally(sign []int) int64 {
 }
 
 type blkDesc struct {
-	id, chain        int
-	h, t             int64
-	vals, hv, next   *vsDesc
-	last             *blkDesc
-	app              int
-	basic, commit    bool
-	sign             []int
-	lb               *types.LightBlock
-	hashID           int
-	hash             []byte
+	id, chain      int
+	h, t           int64
+	vals, hv, next *vsDesc
+	last           *blkDesc
+	app            int
+	basic, commit  bool
+	sign           []int
+	lb             *types.LightBlock
+	hashID         int
+	hash           []byte
 }
 
 func chainName(n int) string { return fmt.Sprintf("chain-%d", n) }
@@ -543,14 +556,14 @@ func (g *gate) close() {
 // ---------------------------------------------------------------- case environment
 
 type env struct {
-	mu       sync.Mutex
-	vss      map[int]*vsDesc
-	blks     map[int]*blkDesc
-	provs    map[int]*prov
-	vsIDs    map[string]int
-	hdrIDs   map[string]int
-	client   *light.Client
-	store    interface {
+	mu     sync.Mutex
+	vss    map[int]*vsDesc
+	blks   map[int]*blkDesc
+	provs  map[int]*prov
+	vsIDs  map[string]int
+	hdrIDs map[string]int
+	client *light.Client
+	store  interface {
 		LightBlock(int64) (*types.LightBlock, error)
 		Size() uint16
 	}
@@ -559,6 +572,7 @@ type env struct {
 	gate     *gate
 	curOp    int
 	replies  []reply
+	dead     bool
 }
 
 func (e *env) logReply(r reply) {
@@ -586,7 +600,9 @@ func (e *env) hdrID(h []byte) int {
 // side channel from Exec to Oracle: what every provider call returned
 var sideLog sync.Map // case key -> []reply
 
-func caseKey(c core.Case) string { return c.ID + "|" + strconv.Itoa(len(c.Ops)) + "|" + strings.Join(c.Ops, "\n") }
+func caseKey(c core.Case) string {
+	return c.ID + "|" + strconv.Itoa(len(c.Ops)) + "|" + strings.Join(c.Ops, "\n")
+}
 
 func classify(err error) string {
 	if err == nil {
@@ -623,6 +639,10 @@ func classify(err error) string {
 		return "prov-toohigh"
 	case errors.As(err, &e4), errors.As(err, &e5):
 		return "prov-bad"
+	case strings.Contains(s, "can't get signed header before height"):
+		return "msg-before"
+	case strings.Contains(s, "can't get first light block"):
+		return "msg-first"
 	case strings.Contains(s, "headers must be adjacent"):
 		return "not-adjacent"
 	case strings.Contains(s, "headers must be non adjacent"):
@@ -733,17 +753,32 @@ func (e *env) blkList(s string) ([]*blkDesc, bool) {
 
 // clientCall runs f (a client entry point) with panics of the code under test mapped to a token.
 func (e *env) clientCall(order []int, f func() string) (res string) {
-	e.gate.mu.Lock()
-	e.gate.order = order
-	e.gate.mainGID = curGID()
-	e.gate.mu.Unlock()
-	defer e.gate.endOp()
-	defer func() {
-		if r := recover(); r != nil {
-			res = "err panic"
-		}
+	if e.dead {
+		return "err hang"
+	}
+	done := make(chan string, 1)
+	go func() {
+		e.gate.mu.Lock()
+		e.gate.order = order
+		e.gate.mainGID = curGID()
+		e.gate.mu.Unlock()
+		r := "err panic"
+		defer func() {
+			recover()
+			done <- r
+		}()
+		r = f()
 	}()
-	return f()
+	select {
+	case res = <-done:
+	case <-time.After(60 * time.Second):
+		// the code under test does not return (endless bisection, deadlock): report it as a
+		// result instead of hanging the check; the client is unusable afterwards
+		e.dead = true
+		return "err hang"
+	}
+	e.gate.endOp()
+	return res
 }
 
 func execCase(c core.Case) []string {
@@ -853,7 +888,10 @@ func execCase(c core.Case) []string {
 					return "err " + classify(err)
 				}
 				return "ok " + e.showBlk(lb)
-			}) + " " + e.showClient()
+			})
+			if !e.dead {
+				res += " " + e.showClient()
+			}
 		case "update":
 			now, ok2 := intOf(m, "now")
 			order, ok3 := natList(m["order"])
@@ -869,7 +907,10 @@ func execCase(c core.Case) []string {
 					return "ok -"
 				}
 				return "ok " + e.showBlk(lb)
-			}) + " " + e.showClient()
+			})
+			if !e.dead {
+				res += " " + e.showClient()
+			}
 		case "level":
 			if len(f) == 3 {
 				a, err1 := strconv.ParseUint(f[1], 10, 64)
@@ -1015,7 +1056,7 @@ func (e *env) opNew(m map[string]string) string {
 		cl = c
 		return "ok"
 	})
-	if cl == nil {
+	if cl == nil || e.dead {
 		return res
 	}
 	e.client = cl
@@ -1030,9 +1071,9 @@ func (e *env) opNew(m map[string]string) string {
 // > 2/3 of its own set, adjacent with matching next-validator hash or >= trust level of the
 // trusted set, within the trusting period.
 type params struct {
-	chain          int
-	period, drift  int64
-	num, den       int64
+	chain         int
+	period, drift int64
+	num, den      int64
 }
 
 func stepOK(p params, a, b *blkDesc, now int64) bool {
@@ -1200,6 +1241,7 @@ func oracle(c core.Case, out []string) []core.Finding {
 				}
 			}
 			for _, s := range added {
+				ocount("newly-trusted-header-checked-for-chain")
 				if !reachable(p, prev, s, byHash, e.blks, now) {
 					dir := "forward"
 					if len(prev) > 0 && s.h < prev[0].h {
@@ -1222,6 +1264,9 @@ func oracle(c core.Case, out []string) []core.Finding {
 						confirmed = true
 					}
 				}
+				if confirmed {
+					ocount("acceptance-with-identical-witness-header")
+				}
 				if okLog && !confirmed {
 					fs = append(fs, core.Finding{Fingerprint: "light.detectDivergence.confirms-without-identical-witness-header",
 						Desc: fmt.Sprintf("op %d (%s): header %d:%d became trusted although no witness returned the identical header during the cross-check", i, op, s.h, s.hash)})
@@ -1241,6 +1286,18 @@ func oracle(c core.Case, out []string) []core.Finding {
 						}
 					}
 				}
+			}
+			if okLog && res == "err attack" {
+				ocount("attack-reported")
+				for _, r := range replies {
+					if r.op == i && r.compare && r.blk != nil && e.backs(p, r.prov, replies, prev, r.blk, byHash, now, c, i) {
+						ocount("attack-reported-with-fully-backed-witness-header")
+						break
+					}
+				}
+			}
+			if okLog && res == "err cross-ref" {
+				ocount("cross-check-refused")
 			}
 			if res == "err attack" {
 				if len(added) > 0 {
@@ -1313,9 +1370,10 @@ func (e *env) backs(p params, provID int, replies []reply, prev []storeEntry, bl
 	for _, b := range table {
 		at[b.h] = b
 	}
-	if at[blk.h] != blk {
+	if at[blk.h] == nil || at[blk.h].id != blk.id {
 		return false
 	}
+	blk = at[blk.h]
 	// the latest trusted header below blk
 	var root *blkDesc
 	for _, s := range prev {
@@ -1387,12 +1445,14 @@ func main() {
 			}
 			return n > 0
 		},
-		Rule: "random chains (6..14 heights) over a universe of 8 real ed25519 validators with churn, commits signed by random coalitions; forged forks (equivocation, lunatic sets, coalitions just below/above the trust level, headers from the future, wrong next-validator hash, malformed headers/commits, other chain); primaries and 1..4 witnesses that are honest, lying (backed or unbacked conflicting header), silent, missing, malevolent, lagging/late, or answering inconsistently between calls; every arrival order of the witness replies forced through the goroutine gate; sequential and skipping mode, trust levels 1/3..1, pruning sizes, now inside/outside the trusting period and around the clock-drift edge. Non-trivial = at least one verify/update executed; distinct by hash of the op list",
+		Rule: "random chains (3..12 heights) over a universe of 8 real ed25519 validators with churn, commits signed by random coalitions; forged forks (equivocation, lunatic sets, coalitions just below/above the trust level, headers from the future, wrong next-validator hash, malformed headers/commits, other chain); primaries and 1..4 witnesses that are honest, lying (backed or unbacked conflicting header), silent, missing, malevolent, lagging/late, or answering inconsistently between calls; every arrival order of the witness replies forced through the goroutine gate; sequential and skipping mode, trust levels 1/3..1, pruning sizes, now inside/outside the trusting period and around the clock-drift edge. Non-trivial = at least one verify/update executed; distinct by hash of the op list",
 		Assumptions: []string{
 			"hashes are abstract values in the model (the code only compares them); the stream interns the real SHA-256 hashes so equal/different is exactly what Go computes",
 			"a commit is modelled as the set of validators that validly signed the header (C07 covers the commit verifiers); the stream only builds commits whose signatures are valid or absent",
 			"goroutine schedules are the sequentialised ones: one witness goroutine runs to completion at a time, in every order",
 		},
-		Extra: func() map[string]interface{} { return map[string]interface{}{"scenario_histogram": scenHist} },
+		Extra: func() map[string]interface{} {
+			return map[string]interface{}{"scenario_histogram": scenHist, "oracle_histogram": oracleHist, "goroutines_leaked_by_code_under_test": leaked}
+		},
 	})
 }
